@@ -51,8 +51,26 @@ type PCase struct {
 	Ops    []POp   `json:"ops"`
 }
 
-// ErrInjected is the error fault plans inject.
-var ErrInjected = errors.New("verif: injected fault")
+// ErrInjected is the error the fault plans of the current case inject. It
+// is set per case by SetInjectedError: mostly the harness' own value, for
+// some cases an error value of the standard library that the library under
+// test might treat specially (io.ErrUnexpectedEOF is what compress/* readers
+// and io.ReadFull report for truncated input). Whatever the value, it must
+// come back unchanged.
+var ErrInjected = errOwn
+
+var errOwn = errors.New("verif: injected fault")
+
+var injectable = []error{errOwn, io.ErrUnexpectedEOF, errOwn, io.ErrNoProgress, errOwn, io.ErrClosedPipe, errOwn, io.ErrShortBuffer}
+
+// SetInjectedError selects the injected error value for case idx. It is
+// called by the worker before the case runs (never concurrently with it).
+func SetInjectedError(idx int64) {
+	if idx < 0 {
+		idx = -idx
+	}
+	ErrInjected = injectable[idx%int64(len(injectable))]
+}
 
 // planReader serves data according to a plan and records what it handed out.
 type planReader struct {
